@@ -4,6 +4,8 @@ package main
 //
 //	crash H <history…> X <m>       history ::= ev/<vid>/<ts>/<fields> | send | fl | ro  (tokens of e2e_suite.go; every
 //	                               event carries n~i<2^vid>, vids distinct and < 60)
+//	crash H <history…> X <m>~<cap> as X <m>, but at most about <cap> crash points of the window are run (first, last,
+//	                               evenly spaced ones in between, and the first point of every function) — quick tier
 //	crash H <history…> X order
 //
 // The crash points are the calls utils.VerifCrashPoint(label) that harness/cmd/overlaygen (crash.go) inserts before
@@ -33,6 +35,15 @@ package main
 // same data dir (initialisation order of cmd/startup; waits for the startup sync goroutine) that queries, then
 // ingests and flushes ONE more event and queries again.  All points of the window must give the same answer
 // (else Out = "diverge …").  `X order` prints the marker kinds of an uncrashed run (ties the step ORDER).
+//
+// METADATA LAYER (Model/CrashMeta.lean).  "Searchable" is more than "served by an all-time match-all": the restarted
+// node prunes whole segments by the time range its metadata record advertises — for a segment that was open at the
+// crash that record is the running .sfm.  Therefore (a) the parent reads, at the moment of the crash, every
+// <seg>.sfm and the lines of segmeta.json (earliest, latest, recordCount, column names) — out fields sfm= / sm=,
+// compared with the record the model builds by the per-record update rule; (b) the restarted process also runs,
+// per flush i of the history, `*` and `* | stats count` over the time window of the events of flush i (tw= / tc=),
+// and per column named c<digits> the search `<col>=*` (col=).  The generator gives every batch its own time window
+// (forward, backward, shuffled or coinciding) and lets later batches introduce new columns.
 //
 // PropFail (independent of the model): see checkPoint.
 
@@ -120,6 +131,49 @@ type crashHist struct {
 	cmdFl   map[int]int // worker command number (1-based over flush/rotate lines) → flush id, -1 = none
 	kinds   []string    // model step kinds in program order (Go copy of SigModel.Crash.steps, for Gen only)
 	created bool
+	wins    [][2]uint64 // per flush: [min ts, max ts] of its events
+	xcols   []string    // columns named c<digits>, sorted
+}
+
+func (h *crashHist) hasCol(vid int, c string) bool {
+	for _, f := range h.events[vid].fields {
+		if f.k == c {
+			return true
+		}
+	}
+	return false
+}
+
+func crashIsExtraCol(c string) bool {
+	return len(c) >= 2 && c[0] == 'c' && digitsOnly(c[1:])
+}
+
+func (h *crashHist) finish() {
+	xc := map[string]bool{}
+	for _, fl := range h.flushes {
+		var lo, hi uint64
+		for i, v := range fl {
+			ts := h.events[v].ts
+			if i == 0 || ts < lo {
+				lo = ts
+			}
+			if ts > hi {
+				hi = ts
+			}
+		}
+		h.wins = append(h.wins, [2]uint64{lo, hi})
+	}
+	for _, e := range h.events {
+		for _, f := range e.fields {
+			if crashIsExtraCol(f.k) {
+				xc[f.k] = true
+			}
+		}
+	}
+	for c := range xc {
+		h.xcols = append(h.xcols, c)
+	}
+	sort.Strings(h.xcols)
 }
 
 func parseCrashHist(toks []string) (*crashHist, bool) {
@@ -211,6 +265,7 @@ func parseCrashHist(toks []string) (*crashHist, bool) {
 	if !h.created {
 		h.kinds = nil
 	}
+	h.finish()
 	return h, true
 }
 
@@ -447,7 +502,86 @@ type crashAnswer struct {
 	sumOK               bool
 	next                int
 	altered             []int
+	dropped             map[int]bool // events that some search returned WITHOUT one of the fields sent
 	errs                []string
+	sfm, sm             string  // metadata records on disk at the moment of the crash
+	tw                  [][]int // per flush of the history: `*` over the flush's time window
+	tc                  []int   // … `* | stats count` over it
+	col                 [][]int // per extra column: `<col>=*`
+}
+
+type crashSfmFile struct {
+	Earliest uint64                 `json:"earliestEpochMs"`
+	Latest   uint64                 `json:"latestEpochMs"`
+	Records  int                    `json:"recordCount"`
+	Cols     map[string]interface{} `json:"columnNames"`
+}
+
+// the metadata records of the data directory: every <seg>/<seg>.sfm (segment order) and the lines of segmeta.json
+func crashMetaState(dir string) (sfm, sm string) {
+	type ent struct {
+		seg int
+		s   string
+	}
+	var sfms []ent
+	var sms []string
+	segOf := func(key string) int {
+		n, err := strconv.Atoi(filepath.Base(key))
+		if err != nil {
+			return -1
+		}
+		return n
+	}
+	filepath.Walk(filepath.Join(dir, "d"), func(p string, fi os.FileInfo, err error) error {
+		if err != nil || fi.IsDir() {
+			return nil
+		}
+		switch {
+		case filepath.Ext(p) == ".sfm":
+			seg := segOf(strings.TrimSuffix(p, ".sfm"))
+			b, _ := os.ReadFile(p)
+			var f crashSfmFile
+			if json.Unmarshal(b, &f) != nil {
+				sfms = append(sfms, ent{seg, fmt.Sprintf("%d:unparsable", seg)})
+				return nil
+			}
+			var cols []string
+			for c := range f.Cols {
+				cols = append(cols, c)
+			}
+			sort.Strings(cols)
+			sfms = append(sfms, ent{seg, fmt.Sprintf("%d:%d-%d:%d:%s", seg, f.Earliest, f.Latest, f.Records, strings.Join(cols, "+"))})
+		case filepath.Base(p) == "segmeta.json":
+			b, _ := os.ReadFile(p)
+			for _, l := range strings.Split(string(b), "\n") {
+				if strings.TrimSpace(l) == "" {
+					continue
+				}
+				var f struct {
+					crashSfmFile
+					Key string `json:"segmentKey"`
+				}
+				if json.Unmarshal([]byte(l), &f) != nil {
+					sms = append(sms, "unparsable")
+					continue
+				}
+				sms = append(sms, fmt.Sprintf("%d:%d-%d:%d", segOf(f.Key), f.Earliest, f.Latest, f.Records))
+			}
+		}
+		return nil
+	})
+	sort.Slice(sfms, func(i, j int) bool { return sfms[i].seg < sfms[j].seg })
+	var ss []string
+	for _, e := range sfms {
+		ss = append(ss, e.s)
+	}
+	dash := func(l []string, sep string) string {
+		if len(l) == 0 {
+			return "-"
+		}
+		return strings.Join(l, sep)
+	}
+	return dash(ss, ";"), dash(sms, ";")
 }
 
 type qres struct {
@@ -502,9 +636,18 @@ func (h *crashHist) recordOK(rec map[string]interface{}) (vid int, ok bool, why 
 	for _, f := range ev.fields {
 		want[f.k] = f.tv
 	}
-	for k, w := range want {
+	var wk []string
+	for k := range want {
+		wk = append(wk, k)
+	}
+	sort.Strings(wk)
+	for _, k := range wk {
+		w := want[k]
 		g, present := rec[k]
-		if !present || canonVal(g) != w {
+		if !present || g == nil {
+			return vid, false, fmt.Sprintf("missing field %s (sent %s)", k, w)
+		}
+		if canonVal(g) != w {
 			return vid, false, fmt.Sprintf("field %s = %v, sent %s", k, g, w)
 		}
 	}
@@ -518,16 +661,29 @@ func (h *crashHist) recordOK(rec map[string]interface{}) (vid int, ok bool, why 
 
 func runChildB(h *crashHist, dir string) (a crashAnswer) {
 	a.next = -1
+	a.sfm, a.sm = crashMetaState(dir)
 	before := segFiles(dir)
 	var in bytes.Buffer
 	lo, hi := e2eBase-1000, e2eBase+1000000
 	q := func(spl string) { fmt.Fprintf(&in, "q 0 1000 %d %d %s\n", lo, hi, hexs(spl)) }
+	qw := func(spl string, w [2]uint64) { fmt.Fprintf(&in, "q 0 1000 %d %d %s\n", w[0], w[1], hexs(spl)) }
 	in.WriteString("waitsync\n")
 	q("*")
 	q("* | stats count")
 	q("g=k")
 	q("n>0")
 	q("* | stats sum(n)")
+	names := []string{"", "*", "count", "g=k", "n>0", "sum"}
+	for i, w := range h.wins {
+		qw("*", w)
+		qw("* | stats count", w)
+		names = append(names, fmt.Sprintf("* over the window of flush #%d", i), fmt.Sprintf("count over the window of flush #%d", i))
+	}
+	for _, c := range h.xcols {
+		q(c + "=*")
+		names = append(names, c+"=*")
+	}
+	names = append(names, "post *", "post count")
 	nj, _ := eventJSON(crashNewVid, e2eBase+999, []kv{{"a", "s" + hexs("xN")}, {"g", "s" + hexs("k")}}, false)
 	fmt.Fprintf(&in, "batch %s\nflush\n", hexs(nj))
 	q("*")
@@ -563,15 +719,14 @@ func runChildB(h *crashHist, dir string) (a crashAnswer) {
 		}
 		rs = append(rs, r)
 	}
-	if len(rs) != 8 {
-		a.errs = append(a.errs, fmt.Sprintf("startup: %d answers instead of 8", len(rs)))
+	if len(rs) != len(names) {
+		a.errs = append(a.errs, fmt.Sprintf("startup: %d answers instead of %d", len(rs), len(names)))
 		return
 	}
 	if rs[0].Sync != "done" {
 		a.errs = append(a.errs, "startup: segment-meta sync did not finish: "+rs[0].Sync)
 	}
-	names := []string{"", "*", "count", "g=k", "n>0", "sum", "post *", "post count"}
-	for i := 1; i < 8; i++ {
+	for i := 1; i < len(names); i++ {
 		if rs[i].Err != "" {
 			a.errs = append(a.errs, "query: "+names[i]+": "+rs[i].Err)
 		}
@@ -585,7 +740,15 @@ func runChildB(h *crashHist, dir string) (a crashAnswer) {
 		var out []int
 		for _, rec := range r.Recs {
 			v, ok, why := h.recordOK(rec)
-			if !ok {
+			if !ok && strings.HasPrefix(why, "missing field ") {
+				if a.dropped == nil {
+					a.dropped = map[int]bool{}
+				}
+				if !a.dropped[v] {
+					a.dropped[v] = true
+					a.errs = append(a.errs, fmt.Sprintf("dropped: _vid %d: %s", v, why))
+				}
+			} else if !ok {
 				a.altered = append(a.altered, v)
 				a.errs = append(a.errs, fmt.Sprintf("altered: _vid %d: %s", v, why))
 			}
@@ -634,8 +797,22 @@ func runChildB(h *crashHist, dir string) (a crashAnswer) {
 	if !a.sumOK {
 		a.errs = append(a.errs, "query: sum: unreadable measure")
 	}
-	a.post = vids(rs[6])
-	c, ok = measure(rs[7], "count(*)")
+	ri := 6
+	for range h.wins {
+		a.tw = append(a.tw, vids(rs[ri]))
+		c, ok = measure(rs[ri+1], "count(*)")
+		if !ok {
+			a.errs = append(a.errs, "query: "+names[ri+1]+": unreadable measure")
+		}
+		a.tc = append(a.tc, int(c))
+		ri += 2
+	}
+	for range h.xcols {
+		a.col = append(a.col, vids(rs[ri]))
+		ri++
+	}
+	a.post = vids(rs[ri])
+	c, ok = measure(rs[ri+1], "count(*)")
 	if !ok {
 		a.errs = append(a.errs, "query: post count: unreadable measure")
 	}
@@ -703,8 +880,42 @@ func (a *crashAnswer) out(h *crashHist) string {
 		ps += "+N"
 	}
 	s := fmt.Sprintf("vis=%s cnt=%d flt=%s rng=%s sum=%s post=%s pcnt=%d next=%d", showInts(a.vis), a.cnt, showInts(a.flt), showInts(a.rng), h.sumSet(a.sum), ps, a.pcnt, a.next)
+	dash := func(l []string, sep string) string {
+		if len(l) == 0 {
+			return "-"
+		}
+		return strings.Join(l, sep)
+	}
+	var tw, tc, cl []string
+	for i := range a.tw {
+		tw = append(tw, showInts(a.tw[i]))
+		tc = append(tc, strconv.Itoa(a.tc[i]))
+	}
+	for i := range a.col {
+		// only the events that HAVE the column are part of the answer line (completeness of the column search is
+		// what the model decides); an event without the column that comes back is reported by checkPoint
+		var has []int
+		for _, v := range a.col[i] {
+			if h.hasCol(v, h.xcols[i]) {
+				has = append(has, v)
+			}
+		}
+		cl = append(cl, h.xcols[i]+":"+showInts(has))
+	}
+	var alt []int
+	for v := range a.dropped {
+		alt = append(alt, v)
+	}
+	sort.Ints(alt)
+	sfm, sm := a.sfm, a.sm
+	if sfm == "" {
+		sfm, sm = "-", "-"
+	}
+	s += fmt.Sprintf(" sfm=%s sm=%s tw=%s tc=%s col=%s alt=%s", sfm, sm, dash(tw, "|"), dash(tc, ","), dash(cl, ";"), showInts(alt))
 	for _, e := range a.errs {
-		s += " ERR[" + strings.SplitN(e, ":", 2)[0] + "]"
+		if c := strings.SplitN(e, ":", 2)[0]; c != "dropped" {
+			s += " ERR[" + c + "]"
+		}
 	}
 	return s
 }
@@ -738,8 +949,34 @@ func checkPoint(h *crashHist, p crashPoint, a *crashAnswer) []PropFail {
 			fails = append(fails, PropFail{Sig: sig, Msg: where + ": " + msg})
 		}
 	}
+	inInflight := func(v int) bool {
+		for _, x := range inflight {
+			if x == v {
+				return true
+			}
+		}
+		return false
+	}
+	addPlain := func(sig, msg string) {
+		if !seen[sig] {
+			seen[sig] = true
+			fails = append(fails, PropFail{Sig: sig, Msg: where + ": " + msg})
+		}
+	}
+	for v := range a.dropped {
+		if inInflight(v) {
+			// the flush in progress is served, but not with its content
+			addPlain("crash/inflight-new-column-dropped", fmt.Sprintf("event %d of the flush in progress is returned without one of its fields (a column the running .sfm does not name yet)", v))
+		}
+	}
 	for _, e := range a.errs {
 		switch strings.SplitN(e, ":", 2)[0] {
+		case "dropped":
+			var v int
+			fmt.Sscanf(e, "dropped: _vid %d:", &v)
+			if !inInflight(v) {
+				add("altered", e)
+			}
 		case "startup":
 			add("startup-failed", e)
 		case "query":
@@ -753,35 +990,48 @@ func checkPoint(h *crashHist, p crashPoint, a *crashAnswer) []PropFail {
 	if len(a.errs) > 0 && len(a.vis) == 0 && a.next == -1 && len(a.post) == 0 {
 		return fails // the restarted process did not answer at all
 	}
-	checkSet := func(name string, s []int, post bool) {
+	// `want` = the events the search condition selects (nil = all)
+	orphanCol := "" // set while a column search is checked whose column the flush in progress carries
+	checkSetSel := func(name string, s []int, post bool, want func(crashEvent) bool) {
+		sel := func(v int) bool { return want == nil || want(h.events[v]) }
 		cnt := map[int]int{}
 		for _, v := range s {
 			cnt[v]++
 			if cnt[v] == 2 {
 				add("duplicated", fmt.Sprintf("%s returns event %d twice", name, v))
 			}
-			if _, known := h.events[v]; !known && !(post && v == crashNewVid) {
+			if e, known := h.events[v]; !known && !(post && v == crashNewVid) {
 				add("garbage", fmt.Sprintf("%s returns an event (_vid %d) that was never sent", name, v))
+			} else if known && want != nil && !want(e) {
+				if orphanCol != "" && !inInflight(v) {
+					addPlain("crash/orphan-column-chunk-misattributed", fmt.Sprintf("%s returns event %d, which has no such column: the flush in progress had begun to write the file of the NEW column %s, and its chunk is read as if it belonged to an earlier block", name, v, orphanCol))
+				} else {
+					add("garbage", fmt.Sprintf("%s returns event %d, which does not satisfy the search condition", name, v))
+				}
 			}
 		}
 		for i, fl := range completed {
 			for _, v := range fl {
-				if cnt[v] == 0 {
+				if sel(v) && cnt[v] == 0 {
 					add("completed-flush-lost", fmt.Sprintf("%s does not return event %d of completed flush #%d (returned: %s)", name, v, i, showInts(s)))
 					break
 				}
 			}
 		}
-		n := 0
+		n, ns := 0, 0
 		for _, v := range inflight {
-			if cnt[v] > 0 {
-				n++
+			if sel(v) {
+				ns++
+				if cnt[v] > 0 {
+					n++
+				}
 			}
 		}
-		if n != 0 && n != len(inflight) {
-			add("inflight-not-atomic", fmt.Sprintf("%s returns %d of the %d events of the flush in progress (returned: %s)", name, n, len(inflight), showInts(s)))
+		if n != 0 && n != ns {
+			add("inflight-not-atomic", fmt.Sprintf("%s returns %d of the %d selected events of the flush in progress (returned: %s)", name, n, ns, showInts(s)))
 		}
 	}
+	checkSet := func(name string, s []int, post bool) { checkSetSel(name, s, post, nil) }
 	checkSet("search *", a.vis, false)
 	checkSet("search g=k", a.flt, false)
 	checkSet("search n>0", a.rng, false)
@@ -806,6 +1056,51 @@ func checkPoint(h *crashHist, p crashPoint, a *crashAnswer) []PropFail {
 		}
 	}
 	checkNum("stats count", uint64(a.cnt), uint64(nc), uint64(len(inflight)))
+	// searchable under a time window / a column condition, not only by the all-time match-all
+	for i := range a.tw {
+		if i >= len(h.wins) {
+			break
+		}
+		w := h.wins[i]
+		inWin := func(e crashEvent) bool { return w[0] <= e.ts && e.ts <= w[1] }
+		checkSetSel(fmt.Sprintf("search * over [%d,%d] (the time window of flush #%d)", w[0], w[1], i), a.tw[i], false, inWin)
+		var base, extra uint64
+		for _, fl := range completed {
+			for _, v := range fl {
+				if inWin(h.events[v]) {
+					base++
+				}
+			}
+		}
+		for _, v := range inflight {
+			if inWin(h.events[v]) {
+				extra++
+			}
+		}
+		checkNum(fmt.Sprintf("stats count over [%d,%d] (the time window of flush #%d)", w[0], w[1], i), uint64(a.tc[i]), base, extra)
+	}
+	for i := range a.col {
+		if i >= len(h.xcols) {
+			break
+		}
+		c := h.xcols[i]
+		hasCol := func(e crashEvent) bool {
+			for _, f := range e.fields {
+				if f.k == c {
+					return true
+				}
+			}
+			return false
+		}
+		orphanCol = ""
+		for _, v := range inflight {
+			if h.hasCol(v, c) {
+				orphanCol = c
+			}
+		}
+		checkSetSel("search "+c+"=*", a.col[i], false, hasCol)
+		orphanCol = ""
+	}
 	if a.sumOK {
 		checkNum("stats sum(n)", a.sum, sc, si)
 	}
@@ -911,13 +1206,44 @@ func execCrash(line string) Result {
 	if x == "order" {
 		return Result{Out: fmt.Sprintf("order n=%d %s", len(d.kinds), strings.Join(d.kinds, " ")), Nontrivial: true, Tags: []string{"order"}}
 	}
+	capN := 0
+	if i := strings.IndexByte(x, '~'); i >= 0 {
+		c, err := strconv.Atoi(x[i+1:])
+		if err != nil || !digitsOnly(x[i+1:]) || c < 2 {
+			return Result{Out: "bad-op"}
+		}
+		capN, x = c, x[:i]
+	}
 	m, err := strconv.Atoi(x)
 	if err != nil || !digitsOnly(x) {
 		return Result{Out: "bad-op"}
 	}
 	var ks []int
+	var wpts []crashPoint
 	for _, p := range d.pts {
 		if p.m == m {
+			wpts = append(wpts, p)
+		}
+	}
+	if capN > 0 && len(wpts) > capN {
+		keep := map[int]bool{}
+		for i := 0; i < capN; i++ {
+			keep[i*(len(wpts)-1)/(capN-1)] = true
+		}
+		fnSeen := map[string]bool{}
+		for i, p := range wpts {
+			if !fnSeen[p.fn] {
+				fnSeen[p.fn] = true
+				keep[i] = true
+			}
+		}
+		for i, p := range wpts {
+			if keep[i] {
+				ks = append(ks, p.k)
+			}
+		}
+	} else {
+		for _, p := range wpts {
 			ks = append(ks, p.k)
 		}
 	}
@@ -944,7 +1270,7 @@ func execCrash(line string) Result {
 		}(i, k)
 	}
 	wg.Wait()
-	r := Result{Tags: []string{"window"}}
+	r := Result{Tags: append([]string{"window"}, crashDistTags(h, m)...)}
 	seenSig := map[string]bool{}
 	outs := map[string][]int{}
 	var order []string
@@ -993,24 +1319,72 @@ func execCrash(line string) Result {
 
 // ---------------------------------------------------------------- generator
 
-func crashEvTok(vid int) string {
-	return fmt.Sprintf("ev/%d/%d/a~s%s,g~s%s,n~i%d", vid, e2eBase+uint64(vid), hexs(fmt.Sprintf("x%d", vid)), hexs("k"), uint64(1)<<uint(vid))
+// an event of batch number b: the batch's time offset places it in the batch's own time window (10 s apart, events
+// 1 ms apart), xcol (may be "") is a column only this batch (and later ones that name it) carries
+func crashEvTokAt(vid int, off uint64, xcol string) string {
+	t := fmt.Sprintf("ev/%d/%d/a~s%s,g~s%s,n~i%d", vid, e2eBase+off+uint64(vid), hexs(fmt.Sprintf("x%d", vid)), hexs("k"), uint64(1)<<uint(vid))
+	if xcol != "" {
+		t += "," + xcol + "~s" + hexs("w")
+	}
+	return t
 }
 
-// shorthand: digits = events, s = send, f = fl, r = ro
-func crashHistTokens(short string) []string {
+func crashEvTok(vid int) string { return crashEvTokAt(vid, 0, "") }
+
+// time layout of the batches of a history: offset of batch b (of nb)
+func crashBatchOffsets(mode string, nb int, r *rand.Rand) []uint64 {
+	off := make([]uint64, nb)
+	perm := make([]int, nb)
+	for i := range perm {
+		perm[i] = i
+	}
+	if mode == "shuffled" && r != nil {
+		perm = r.Perm(nb)
+	}
+	for b := 0; b < nb; b++ {
+		switch mode {
+		case "forward": // log time moves on
+			off[b] = 10000 * uint64(b+1)
+		case "backward": // late arrivals: every batch is older than the one before
+			off[b] = 10000 * uint64(nb-b)
+		case "shuffled":
+			off[b] = 10000 * uint64(perm[b]+1)
+		default: // "same": all batches within the same few milliseconds (the layout before the metadata layer)
+			off[b] = 0
+		}
+	}
+	return off
+}
+
+// shorthand: digits = events, s = send, f = fl, r = ro; mode = time layout; lateCols: batch b with b in the set
+// carries the column c<b> (and only that batch)
+func crashHistTokens(short string, mode string, lateCols map[int]bool, r *rand.Rand) []string {
+	ws := strings.Fields(short)
+	nb := 0
+	for _, w := range ws {
+		if w == "s" {
+			nb++
+		}
+	}
+	off := crashBatchOffsets(mode, nb+1, r)
 	var t []string
-	for _, w := range strings.Fields(short) {
+	b := 0
+	for _, w := range ws {
 		switch w {
 		case "s":
 			t = append(t, "send")
+			b++
 		case "f":
 			t = append(t, "fl")
 		case "r":
 			t = append(t, "ro")
 		default:
 			v, _ := strconv.Atoi(w)
-			t = append(t, crashEvTok(v))
+			xc := ""
+			if lateCols[b] {
+				xc = fmt.Sprintf("c%d", b)
+			}
+			t = append(t, crashEvTokAt(v, off[b], xc))
 		}
 	}
 	return t
@@ -1018,11 +1392,19 @@ func crashHistTokens(short string) []string {
 
 func genCrash(r *rand.Rand, n int, tier string) []string {
 	var hists [][]string
-	fixed := []string{
-		"1 2 s f 3 s f r",     // two flushes into one segment, rotation (the minimal WriteSfm window is in here)
-		"1 s r 2 s f",         // rotation that first flushes the buffer, then a flush into the next segment
-		"1 s r 2 3 s f 4 s f", // … and two flushes into the next segment
-		"1 s f r 2 s f r 3 s", // two rotated segments, unflushed tail
+	type fx struct {
+		short, mode string
+		late        map[int]bool
+	}
+	fixed := []fx{
+		// two flushes into one segment, the second LATER in time and with a new column, then the rotation (the minimal
+		// WriteSfm window is in here; between the second flush and the rotation the running .sfm is the only record)
+		// (batch 0 carries a column the later batch lacks, batch 1 a column the earlier one lacked)
+		{"1 2 s f 3 s f r", "forward", map[int]bool{0: true, 1: true}},
+		// rotation that first flushes the buffer, then two flushes into the next segment, the second one EARLIER in time
+		{"1 s r 2 s f 3 s f", "backward", map[int]bool{1: true, 2: true}},
+		{"1 s r 2 3 s f 4 s f", "forward", map[int]bool{1: true}}, // … and two flushes into the next segment
+		{"1 s f r 2 s f r 3 s", "shuffled", nil},                   // two rotated segments, unflushed tail
 	}
 	nfixed := len(fixed)
 	if tier != "thorough" && n > 4 {
@@ -1032,26 +1414,40 @@ func genCrash(r *rand.Rand, n int, tier string) []string {
 		nfixed = 1 // the runner uses several seeds in this tier: the rest of the budget goes to random histories
 	}
 	for i := 0; i < n && i < nfixed; i++ {
-		hists = append(hists, crashHistTokens(fixed[i]))
+		hists = append(hists, crashHistTokens(fixed[i].short, fixed[i].mode, fixed[i].late, r))
 	}
+	modes := []string{"forward", "forward", "backward", "shuffled", "shuffled", "same"}
 	for len(hists) < n {
-		// random histories: 2..6 commands, 1..3 events per batch
+		// random histories: 2..6 commands, 1..3 events per batch; every batch has its own time window
 		var t []string
 		vid := 1
 		nc := 2 + r.Intn(5)
+		mode := modes[r.Intn(len(modes))]
+		off := crashBatchOffsets(mode, 2*nc+1, r)
+		b := 0
+		xcolOf := func() string {
+			if r.Intn(2) == 0 { // also the first batch: a column that only EARLIER blocks of a segment have
+				return fmt.Sprintf("c%d", 1+r.Intn(3)) // few names: a column may first appear in block 1 and come back later
+			}
+			return ""
+		}
 		for c := 0; c < nc; c++ {
 			if r.Intn(6) != 0 || c == 0 {
 				ne := 1 + r.Intn(3)
+				xc := xcolOf()
 				for e := 0; e < ne; e++ {
-					t = append(t, crashEvTok(vid))
+					t = append(t, crashEvTokAt(vid, off[b], xc))
 					vid++
 				}
 				t = append(t, "send")
+				b++
 				if r.Intn(5) == 0 { // a second batch before the flush
-					t = append(t, crashEvTok(vid), "send")
+					t = append(t, crashEvTokAt(vid, off[b], xcolOf()), "send")
 					vid++
+					b++
 				}
 			}
+			// two thirds flushes: histories with several blocks in one unrotated segment are the common case
 			if r.Intn(3) == 0 {
 				t = append(t, "ro")
 			} else {
@@ -1069,10 +1465,59 @@ func genCrash(r *rand.Rand, n int, tier string) []string {
 		pre := "crash H " + strings.Join(t, " ") + " X "
 		out = append(out, pre+"order")
 		for m := 0; m <= len(h.kinds); m++ {
-			out = append(out, pre+strconv.Itoa(m))
+			if tier == "thorough" {
+				out = append(out, pre+strconv.Itoa(m))
+			} else {
+				out = append(out, pre+strconv.Itoa(m)+"~12")
+			}
 		}
 	}
 	// malformed share
 	out = append(out, "crash H ev/1/1700000000001/a~s78 send fl X 3", "crash H "+crashEvTok(1)+" send fl X 99", "crash H "+crashEvTok(1)+" "+crashEvTok(1)+" send fl X 1", "crash H bogus X 0")
 	return out
+}
+
+// input-distribution tags of one op line `X m`: time layout of the flush windows, late columns, and how many blocks
+// the open (unrotated) segment holds after m model steps
+func crashDistTags(h *crashHist, m int) []string {
+	var tags []string
+	fwd, bwd := false, false
+	for i := 1; i < len(h.wins); i++ {
+		if h.wins[i][0] > h.wins[i-1][1] {
+			fwd = true
+		}
+		if h.wins[i][1] < h.wins[i-1][0] {
+			bwd = true
+		}
+	}
+	switch {
+	case fwd && bwd:
+		tags = append(tags, "time:shuffled")
+	case fwd:
+		tags = append(tags, "time:forward")
+	case bwd:
+		tags = append(tags, "time:backward")
+	default:
+		tags = append(tags, "time:same-window")
+	}
+	if len(h.xcols) > 0 {
+		tags = append(tags, "late-column")
+	}
+	open := 0
+	for i := 0; i < m && i < len(h.kinds); i++ {
+		switch h.kinds[i] {
+		case "sfmren":
+			if i >= 2 && h.kinds[i-2] == "sstren" {
+				open++
+			}
+		case "segmeta":
+			open = 0
+		}
+	}
+	if open >= 2 {
+		tags = append(tags, "open-segment-2+blocks")
+	} else {
+		tags = append(tags, fmt.Sprintf("open-segment-%d-blocks", open))
+	}
+	return tags
 }
